@@ -53,6 +53,8 @@ pub enum Op {
     Downgrade(H),
     /// weak -> strong (next free strong slot if Some); result Some/None
     Upgrade(H),
+    /// upgrade a weak handle and drop the result at once; Some/None
+    UpgradeProbe(H),
     ToSender(H),
     ToCaller(H),
     ToWeakSender(H),
@@ -359,6 +361,19 @@ async fn exec_op(h: &mut Handles, op: Op) -> Res {
             },
             _ => EMPTY,
         },
+        Op::UpgradeProbe(t) => {
+            let some = match t {
+                H::WAddr(i) => h.waddr.get(i as usize).and_then(Option::as_ref).map(|w| w.upgrade().is_some()),
+                H::WSnd(i) => h.wsnd.get(i as usize).and_then(Option::as_ref).map(|w| w.upgrade().is_some()),
+                H::WCal(i) => h.wcal.get(i as usize).and_then(Option::as_ref).map(|w| w.upgrade().is_some()),
+                _ => None,
+            };
+            match some {
+                Some(true) => Res::Some,
+                Some(false) => Res::None,
+                None => EMPTY,
+            }
+        }
         Op::ToSender(t) => match h.addr_of(t).map(|a| a.sender::<Note>()) {
             Some(s) => {
                 h.snd.push(Some(s));
